@@ -863,7 +863,11 @@ XalanTransformer::setStylesheetParam(
             const XalanDOMString&    qname,
             const XalanDOMString&    expression)
 {
-    m_params[qname].m_expression = expression;
+    XalanParamHolder&   theParam = m_params[qname];
+
+    // The last value set for a parameter is the one that counts...
+    theParam.m_expression = expression;
+    theParam.m_value = XObjectPtr();
 }
 
 void
@@ -871,7 +875,11 @@ XalanTransformer::setStylesheetParam(
             const XalanDOMString&    qname,
             XObjectPtr               object)
 {
-    m_params[qname].m_value = object;
+    XalanParamHolder&   theParam = m_params[qname];
+
+    // The last value set for a parameter is the one that counts...
+    theParam.m_value = object;
+    theParam.m_expression.clear();
 }
 
 
